@@ -913,8 +913,10 @@ pub fn main() {
                             }
                             crate::corpus::random_item(&cfg, &work, i - work.fixed.len())
                         };
-                        // the fixed part is always completed; only a hard cap of 8x the budget stops it
-                        if i < work.fixed.len() && t0.elapsed().as_secs_f64() > cfg.budget_s * 8.0 {
+                        // the fixed part is always completed; only a hard cap stops it (8x the
+                        // budget, at least 25 minutes: a loaded machine must not turn a pass
+                        // into an inconclusive run); what it cuts off is listed as not covered
+                        if i < work.fixed.len() && t0.elapsed().as_secs_f64() > (cfg.budget_s * 8.0).max(1500.0) {
                             let mut r = crate::props::PatReport::new(&item);
                             r.status = "not-covered-time".to_string();
                             reports.lock().unwrap().push(r);
